@@ -684,10 +684,20 @@ func clean(rc *receiver, q creq) cresp {
 	for _, p := range []int{2, 3, 7, 13, 4093, 4099, 65537} {
 		add(fmt.Sprintf("chunks-of-%d", p), splitFeed(base, p, hdrEnd))
 	}
+	// single file boundaries: every file; for a stream of many files the
+	// first two, the last two and evenly spaced ones in between (the combined
+	// all-file-boundaries variants below still cut at every file)
+	single := map[int]bool{}
+	for i := range ends {
+		single[i] = len(ends) <= 10 || i < 2 || i >= len(ends)-2 || i%(len(ends)/4) == 0
+	}
 	for _, d := range []int{-1, 0, 1} {
 		add(fmt.Sprintf("header-boundary%+d", d), boundaryFeed(base, []int{hdrEnd + d}))
 		add(fmt.Sprintf("length-prefix%+d", d), boundaryFeed(base, []int{4 + d}))
 		for i, e := range ends {
+			if !single[i] {
+				continue
+			}
 			add(fmt.Sprintf("file-%d-boundary%+d", i, d), boundaryFeed(base, []int{e + d}))
 		}
 		var all []int
